@@ -1,5 +1,6 @@
 (** Comparators evaluated on the cases the harness produced for C14 (no proofs). *)
 From WM Require Import Base.Prelude Dedup.Model Dedup.Timed.
+From WM Require Export Dedup.Clients.
 Local Open Scope Z_scope.
 
 (** * hashers *)
@@ -117,12 +118,7 @@ Definition seq_mismatches (cs : list seq_case) : list nat := positions (map seq_
 
 (** * concurrent cases: schedule replay, outcomes, monitor *)
 
-Inductive opspec :=
-| OpMW (m : N) (it : item)
-| OpDEC (ms : list (N * item)).
-
-Definition has_err (ms : list (N * item)) : bool :=
-  existsb (fun x => match snd x with IErr _ => true | IKey _ => false end) ms.
+(** [opspec], [has_err], [compile], [delivered]: Dedup/Clients.v *)
 
 (** attach the repository's answers (in call order) to the messages of a batch; [stop] = the
     loop has hit a hasher error, nothing after it is asked.  Returns the annotated batch, the
@@ -223,6 +219,15 @@ Definition conc_replay (c : conc_case) : list nat :=
   else if negb (forallb (fun o => match o with Some (_, _, []) => true | _ => false end) ex) then [6%nat]
   else
     let progs := map (fun o => match o with Some (_, p, _) => p | None => [] end) ex in
+    (* the client programs and deliveries the theorems C14_delivered_iff_new / C14_program_conserved
+       talk about: [compile] must be the program the replay uses (9), [delivered] on the observed
+       answers must be what the handler / inner publisher were given (10) *)
+    (if list_eqb (list_eqb (fun a b => N.eqb (fst a) (fst b) && N.eqb (snd a) (snd b)))
+          (map (compile (cc_fixed c)) (cc_threads c)) progs then [] else [9%nat]) ++
+    (if list_eqb nlist_eqb
+          (map (fun p => delivered (cc_fixed c) (fst p) (snd p)) (combine (cc_threads c) (cc_answers c)))
+          (map (fun os => flat_map (fun o => match o with ObsMW h _ _ => h | ObsDEC _ i _ => concat i end) os) (cc_obs c))
+     then [] else [10%nat]) ++
     let exobs := map (fun o => match o with Some (os, _, _) => os | None => [] end) ex in
     (if list_eqb (list_eqb obs_eqb) exobs (cc_obs c) then [] else [5%nat]) ++
     match replay (cc_w c) (init (cc_t0 c) (roles_of progs)) (cc_sched c) with
